@@ -503,6 +503,7 @@ func RateLimitMiddleware(config RateLimiterConfig) Middleware {
 			}
 
 			if limit.tokens <= 0 {
+				verifEvent("RateReq", clientIP, limit.tokens, false, len(limits))
 				mu.Unlock()
 				log.Printf("[RATE_LIMIT] Rate limit exceeded for %s", sanitizeLog(clientIP)) // #nosec G706 -- sanitized
 				return SendError(ctx, 429, "rate limit exceeded")
@@ -510,6 +511,7 @@ func RateLimitMiddleware(config RateLimiterConfig) Middleware {
 
 			limit.tokens--
 			limit.requestCount++
+			verifEvent("RateReq", clientIP, limit.tokens, true, len(limits))
 			mu.Unlock()
 
 			return next(ctx)
